@@ -29,6 +29,7 @@ def main():
         if m.get("part") == "ensures" and m.get("label") and m.get("fn"):
             key = "%s|%s::%s" % (m["file"], m.get("impl", "-"), m["fn"])
             clauses.append((key, m["label"], a, b))
+    all_keys = set("%s#%s" % (c[0], c[1]) for c in clauses)
     if only: clauses = [c for c in clauses if any(o in c[1] for o in only)]
     print("clauses:", len(clauses), file=sys.stderr)
     # a clause of g is visible only at the call sites of g: verify just the modules that contain (name-based) callers of g
@@ -76,7 +77,7 @@ def main():
     path = os.path.join(VERIF, "label_deps.json")
     prev = json.load(open(path)) if os.path.exists(path) else {}
     if only and prev:
-        oc = {k: {"dependents": v.get("dependents")} for k, v in prev.get("clauses", {}).items()}; oc.update(out); out = oc
+        oc = {k: {"dependents": v.get("dependents")} for k, v in prev.get("clauses", {}).items() if k in all_keys}; oc.update(out); out = oc   # stale (relabelled) clauses go
     # closure over labelled dependents (always over the whole table)
     by_label = {}
     for k in out: by_label.setdefault(k.split("#", 1)[1], []).append(k)
